@@ -1,9 +1,18 @@
 (* KEYFAITH -- C01's abstract guard [key_faithful] discharged from C09's injectivity of the framed
    key encoding and a decidable, structural guard on the snapshots of the history.
    Statements only; definitions in theories/Build_keyfaith.v ([dep_shape], [cmd_faithful] and its
-   boolean [cmd_faithfulb], [labels_unique] / [labels_uniqueb], [snaps_okb] = both, the digest
-   [pf_enc], [incremental_differs]); proofs in theories/Build_keyfaith_proofs.v.
-   The digest H is idealised as injective, lower-case-hex-only and prefix-free. *)
+   boolean [cmd_faithfulb], [labels_unique] / [labels_uniqueb], [outdefs_comma_free] /
+   [outdefs_comma_freeb], [snaps_okb] = all three, the digest [pf_enc], [incremental_differs]);
+   proofs in theories/Build_keyfaith_proofs.v.
+   The digest H is idealised as injective, lower-case-hex-only and prefix-free.
+
+   No-cache targets are admitted anywhere in the graph ([op_ok] / [plain] only ask for a command).
+   [cmd_faithful] also asks that equal label + equal command text give an equal no-cache tag (the key
+   does not cover the tag), and [outdefs_comma_free] that no output path of a no-cache target contains
+   a ',' (the no-cache output hash joins its "<definition>=<digest>" items with ','; with that, an equal
+   contribution of a no-cache dependency means equal bytes at its outputs).  A dependency that is no-cache
+   in one snapshot and cacheable in another needs no guard: its two output hashes are digests of a text
+   with '=' resp. of hex digits only, and cannot coincide. *)
 From Coq Require Import List Ascii.
 From Grog Require Import Str Label HashKey Build Build_ideal Build_keyfaith Build_keyfaith_proofs.
 Import ListNotations.
@@ -14,7 +23,7 @@ Proof. exact cmd_faithfulb_spec. Qed.
 Print Assumptions KEYFAITH_cmd_faithful_decidable.
 
 Theorem KEYFAITH_guard_decidable : forall V,
-  snaps_okb V = true <-> cmd_faithful V /\ Forall labels_unique V.
+  snaps_okb V = true <-> cmd_faithful V /\ Forall labels_unique V /\ Forall outdefs_comma_free V.
 Proof. exact snaps_okb_spec. Qed.
 Print Assumptions KEYFAITH_guard_decidable.
 
@@ -26,13 +35,14 @@ Theorem KEYFAITH_labels_unique_of_names : forall s,
 Proof. exact labels_unique_of_names. Qed.
 Print Assumptions KEYFAITH_labels_unique_of_names.
 
-(* 1. the bridge: equal label + equal command text => equal salt / behaviour / check flag / read shape,
-   and unique printed labels per snapshot, give the abstract guard of C01 *)
+(* 1. the bridge: equal label + equal command text => equal salt / behaviour / check flag / read shape /
+   no-cache tag, unique printed labels per snapshot and comma-free output paths of the no-cache targets
+   give the abstract guard of C01 *)
 Theorem KEYFAITH_key_faithful : forall (H : str -> str),
   (forall a b, H a = H b -> a = b) ->
   (forall x c, In c (H x) -> is_hex c = true) ->
   (forall x y p, H y = H x ++ p -> p = []) ->
-  forall V, Forall labels_unique V -> cmd_faithful V -> key_faithful H V.
+  forall V, Forall labels_unique V -> Forall outdefs_comma_free V -> cmd_faithful V -> key_faithful H V.
 Proof. exact key_faithful_of_cmd_faithful. Qed.
 Print Assumptions KEYFAITH_key_faithful.
 
@@ -41,8 +51,8 @@ Theorem KEYFAITH_hist_ok : forall (H : str -> str),
   (forall a b, H a = H b -> a = b) ->
   (forall x c, In c (H x) -> is_hex c = true) ->
   (forall x y p, H y = H x ++ p -> p = []) ->
-  forall ops, Forall op_ok ops -> Forall labels_unique (snaps ops) -> cmd_faithful (snaps ops) ->
-  hist_ok H ops.
+  forall ops, Forall op_ok ops -> Forall labels_unique (snaps ops) ->
+  Forall outdefs_comma_free (snaps ops) -> cmd_faithful (snaps ops) -> hist_ok H ops.
 Proof. exact hist_ok_of_cmd_faithful. Qed.
 Print Assumptions KEYFAITH_hist_ok.
 
@@ -139,8 +149,8 @@ Print Assumptions KEYFAITH_after_cache_faults.
    bytes of the first snapshot *)
 Theorem KEYFAITH_without_salt_refuted :
   exists ops cfg roots ext' i t o,
-    Forall op_ok ops /\ Forall labels_unique (snaps ops) /\ cfg_ok cfg /\
-    cmd_faithfulb_m (mkMask false true true true) (snaps ops) = true /\
+    Forall op_ok ops /\ Forall labels_unique (snaps ops) /\ Forall outdefs_comma_free (snaps ops) /\
+    cfg_ok cfg /\ cmd_faithfulb_m (mkMask false true true true true) (snaps ops) = true /\
     incremental_differs pf_enc ops cfg roots ext' i t o /\ ~ key_faithful pf_enc (snaps ops).
 Proof. exact salt_needed. Qed.
 Print Assumptions KEYFAITH_without_salt_refuted.
@@ -148,28 +158,28 @@ Print Assumptions KEYFAITH_without_salt_refuted.
 (* read shape: two snapshots that differ only in the order of two dependencies: one key, other bytes *)
 Theorem KEYFAITH_without_dep_shape_refuted :
   exists ops cfg roots ext' i t o,
-    Forall op_ok ops /\ Forall labels_unique (snaps ops) /\ cfg_ok cfg /\
-    cmd_faithfulb_m (mkMask true true true false) (snaps ops) = true /\
+    Forall op_ok ops /\ Forall labels_unique (snaps ops) /\ Forall outdefs_comma_free (snaps ops) /\
+    cfg_ok cfg /\ cmd_faithfulb_m (mkMask true true true false true) (snaps ops) = true /\
     incremental_differs pf_enc ops cfg roots ext' i t o /\ ~ key_faithful pf_enc (snaps ops).
 Proof. exact dep_shape_needed. Qed.
 Print Assumptions KEYFAITH_without_dep_shape_refuted.
 
 (* behaviour: a failing and a succeeding command with one key *)
 Theorem KEYFAITH_without_beh_refuted :
-  exists V, Forall src_ok V /\ Forall labels_unique V /\
-    cmd_faithfulb_m (mkMask true false true true) V = true /\ ~ key_faithful pf_enc V.
+  exists V, Forall src_ok V /\ Forall labels_unique V /\ Forall outdefs_comma_free V /\
+    cmd_faithfulb_m (mkMask true false true true true) V = true /\ ~ key_faithful pf_enc V.
 Proof. exact beh_needed. Qed.
 Print Assumptions KEYFAITH_without_beh_refuted.
 
 (* check flag: the command destroys the condition its own output check inspects / has no check *)
 Theorem KEYFAITH_without_check_refuted :
-  exists V, Forall src_ok V /\ Forall labels_unique V /\
-    cmd_faithfulb_m (mkMask true true false true) V = true /\ ~ key_faithful pf_enc V.
+  exists V, Forall src_ok V /\ Forall labels_unique V /\ Forall outdefs_comma_free V /\
+    cmd_faithfulb_m (mkMask true true false true true) V = true /\ ~ key_faithful pf_enc V.
 Proof. exact check_needed. Qed.
 Print Assumptions KEYFAITH_without_check_refuted.
 
 (* the masked guard with every conjunct on is the guard *)
-Theorem KEYFAITH_mask_full : forall V, cmd_faithfulb_m (mkMask true true true true) V = cmd_faithfulb V.
+Theorem KEYFAITH_mask_full : forall V, cmd_faithfulb_m (mkMask true true true true true) V = cmd_faithfulb V.
 Proof. exact cmd_faithfulb_m_full. Qed.
 Print Assumptions KEYFAITH_mask_full.
 
@@ -177,11 +187,63 @@ Print Assumptions KEYFAITH_mask_full.
    print "//a:b:c", and dependency contributions carry the printed label) *)
 Theorem KEYFAITH_without_printed_labels_refuted :
   exists ops cfg roots ext' i t o,
-    Forall op_ok ops /\ Forall (fun s => NoDup (map node_label (s_nodes s))) (snaps ops) /\ cfg_ok cfg /\
+    Forall op_ok ops /\ Forall (fun s => NoDup (map node_label (s_nodes s))) (snaps ops) /\
+    Forall outdefs_comma_free (snaps ops) /\ cfg_ok cfg /\
     cmd_faithfulb (snaps ops) = true /\
     incremental_differs pf_enc ops cfg roots ext' i t o /\ ~ key_faithful pf_enc (snaps ops).
 Proof. exact printed_labels_needed. Qed.
 Print Assumptions KEYFAITH_without_printed_labels_refuted.
+
+(* the no-cache tag: t (no outputs) is no-cache in the first snapshot and cacheable in the second, u depends
+   on t.  One key for t in both, so [key_faithful] fails; in the build after the edit t is served the
+   output-less record of its no-cache execution and u is looked up (here: served) under a key that differs
+   from the key the from-scratch build of the same sources gives it.  (The bytes agree -- t has no
+   outputs --, so this witness refutes the abstract guard and the key-level invariant of the proof, not
+   incremental = clean.) *)
+Theorem KEYFAITH_without_nocache_tag_refuted :
+  exists ops cfg roots,
+    Forall op_ok ops /\ Forall labels_unique (snaps ops) /\ Forall outdefs_comma_free (snaps ops) /\
+    cfg_ok cfg /\ cmd_faithfulb_m (mkMask true true true true false) (snaps ops) = true /\
+    ~ key_faithful pf_enc (snaps ops) /\
+    let y := run_history pf_enc ops in
+    let r := build pf_enc cfg (sy_src y) roots (sy_world y) (sy_cache y) in
+    br_status r = [THit; THit] /\
+    rt_key (get_rt (build_prefix pf_enc cfg (sy_src y) roots (sy_world y) (sy_cache y) 2) 1) <>
+    option_map i_key (nth 1 (ideal pf_enc (sy_src y)) None).
+Proof. exact nocache_flag_needed. Qed.
+Print Assumptions KEYFAITH_without_nocache_tag_refuted.
+
+(* comma-free output paths: what the guard buys is the unique decoding of the no-cache output hash ... *)
+Theorem KEYFAITH_nocache_hash_injective : forall (H : str -> str),
+  (forall a b, H a = H b -> a = b) ->
+  forall l l' : list (str * str), length l = length l' ->
+  (forall e, In e l -> ~ In ch_comma (nocache_item e)) ->
+  (forall e, In e l' -> ~ In ch_comma (nocache_item e)) ->
+  nocache_output_hash H l = nocache_output_hash H l' ->
+  Permutation (map nocache_item l) (map nocache_item l').
+Proof. exact nocache_hash_inj. Qed.
+Print Assumptions KEYFAITH_nocache_hash_injective.
+
+(* ... which fails without it, for every digest function: the definitions "file::a" and "file::a=0,file::a"
+   holding the digests 0, 1 resp. 1, 0 are hashed as one text.  (No history of Build.v reaches this state --
+   every generated output embeds its own definition, two outputs never exchange digests --, so there is no
+   witness at the level of histories: the guard is what the proof of the bridge uses.) *)
+Theorem KEYFAITH_nocache_hash_needs_comma_free :
+  exists l l' : list (str * str), length l = length l' /\
+    (forall e, In e (l ++ l') -> ~ In ch_eq (snd e) /\ ~ In ch_comma (snd e)) /\
+    ~ Permutation (map nocache_item l) (map nocache_item l') /\
+    forall H : str -> str, nocache_output_hash H l = nocache_output_hash H l'.
+Proof. exact nocache_hash_needs_comma_free. Qed.
+Print Assumptions KEYFAITH_nocache_hash_needs_comma_free.
+
+(* a dependency whose no-cache tag differs between two snapshots contributes differently (no guard needed) *)
+Theorem KEYFAITH_nocache_hash_not_output_hash : forall (H : str -> str),
+  (forall a b, H a = H b -> a = b) ->
+  (forall x c, In c (H x) -> is_hex c = true) ->
+  forall (l : list (str * str)) (m : list str), l <> [] -> m <> [] ->
+  nocache_output_hash H l <> output_hash H m.
+Proof. exact nocache_hash_not_output_hash. Qed.
+Print Assumptions KEYFAITH_nocache_hash_not_output_hash.
 
 (* 5. non-vacuity: the three hypotheses on the digest are satisfiable ... *)
 Theorem KEYFAITH_digest_hypotheses_nonvacuous :
@@ -214,3 +276,18 @@ Theorem KEYFAITH_nonvacuous_reorder :
     br_status r = [THit; THit] /\ br_ok r = true.
 Proof. exact keyfaith_nonvacuous_reorder. Qed.
 Print Assumptions KEYFAITH_nonvacuous_reorder.
+
+(* ... and so does the history of C01_nocache_chain_nonvacuous: a no-cache target (a file and a directory
+   output) in the middle of a chain; the build after [build; edit; build] serves its dependency and its
+   dependant from the cache and runs the no-cache target *)
+Theorem KEYFAITH_nonvacuous_nocache :
+  exists ops cfg roots,
+    Forall op_ok ops /\ snaps_okb (snaps ops) = true /\ cfg_ok cfg /\
+    (exists s t, In s (snaps ops) /\ In (NTarget t) (s_nodes s) /\ td_nocache t = true /\
+                 td_outs t <> [] /\ td_deps t <> []) /\
+    let y := run_history pf_enc ops in
+    let r := build pf_enc cfg (sy_src y) roots (sy_world y) (sy_cache y) in
+    map br_status (sy_log y) = [[TExecuted; TExecuted; TExecuted]; [TExecuted; TExecuted; TExecuted]] /\
+    br_status r = [THit; TExecuted; THit] /\ br_ok r = true.
+Proof. exact keyfaith_nonvacuous_nocache. Qed.
+Print Assumptions KEYFAITH_nonvacuous_nocache.
